@@ -6,6 +6,7 @@ import (
 	"path/filepath"
 	"sort"
 	"strings"
+	"verif/internal/hm"
 
 	"verif/internal/core"
 	"verif/internal/fcx"
@@ -212,7 +213,7 @@ func runC05(r *core.Run, tier string) {
 	if tier == "thorough" {
 		nGen, nSpecial, nNative, nShuffle = 500, 75, 25, 24
 	}
-	r.Rule("a case is one (input, execution) pair: each input (the 12 self-hosted sources in one invocation, every listed sample, generated programs, and programs built to put >= 2 entries in every dictionary fc iterates: records with identical field-name sets with/without Rec. prefix, unions with exhaustive / default / non-exhaustive matches, package_info blocks with many and overlapping entries, long chains of inference variables) is transpiled by fresh fc processes under Go's native map order and under the hook-H1 orders asc, desc, rot:1..3 and seeded shuffles; all executions of one input must agree on every output file's bytes and on accept/reject; the H1 log is the evidence that order-sensitive code was reached; non-trivial = execution under a controlled order; distinct by (input, order)")
+	r.Rule("a case is one (input, execution) pair: each input (the 12 self-hosted sources in one invocation, every listed sample, generated programs, and programs built to put >= 2 entries in every dictionary fc iterates: records with identical field-name sets with/without Rec. prefix, unions with exhaustive / default / non-exhaustive matches, package_info blocks with many and overlapping entries, long chains of inference variables, and constraint-shape functions over unannotated parameters, ill-typed ones included) is transpiled by fresh fc processes under Go's native map order and under the hook-H1 orders asc, desc, rot:1..3 and seeded shuffles; all executions of one input must agree on every output file's bytes and on accept/reject; the H1 log is the evidence that order-sensitive code was reached; non-trivial = execution under a controlled order; distinct by (input, order)")
 	r.Assume("every order the hook produces is one Go's map iteration may produce", "diagnostic text is not part of the statement (which uncovered case is named may vary)")
 	var inputs []c05Input
 	// self-hosted sources
@@ -235,6 +236,30 @@ func runC05(r *core.Run, tier string) {
 	}
 	for k := 0; k < nSpecial; k++ {
 		inputs = append(inputs, c05Special(core.NewRand(r.SeedV, fmt.Sprintf("c05s/%d", k)), k)...)
+	}
+	// constraint-shape functions (C02's generator) WITHOUT the well-typedness filter: unannotated
+	// parameters tied to structured types and unified late; in the ill-typed ones a type variable
+	// receives disagreeing constraints, and which one wins (or whether fc notices) must not depend
+	// on an enumeration order
+	nShapes := 60
+	if tier == "thorough" {
+		nShapes = 800
+	}
+	for i := 0; i < nShapes; i++ {
+		var f *fo.FuncDef
+		func() {
+			defer func() { recover() }()
+			f = c02ShapeOpt(core.NewRand(r.SeedV, fmt.Sprintf("c05shape/%d", i)), fmt.Sprintf("shape%d", i), i%4 != 0)
+		}()
+		if f == nil || len(f.Body.Stmts) == 0 {
+			continue
+		}
+		kind := "constraint-shape-ill-typed"
+		if _, err := hm.New(&fo.Program{}).InferFunc(f); err == nil {
+			kind = "constraint-shape-well-typed"
+		}
+		vp := &fo.Program{Pkg: "main", Imports: []string{"frt", "slice"}, Decls: append(append([]fo.Decl{}, c02GenericPrelude...), f)}
+		inputs = append(inputs, c05Input{id: fmt.Sprintf("%s/%d", kind, i), kind: kind, files: map[string]string{"x.fo": fo.Print(vp, nil)}, args: []string{"x.fo"}})
 	}
 	var orders []string
 	for i := 0; i < nNative; i++ {
